@@ -4,7 +4,7 @@
 Require Extraction.
 Require Import ExtrOcamlBasic.
 From Coq Require Import NArith ZArith Ascii String.
-From PM Require Import Model.Varint Model.Directory Model.Iterate Model.TileId Gen.Generated Model.Header Model.FindTile Model.DirBuild Model.Resolver Model.Archive Model.Verify Model.Cluster Model.PathParse Model.PathSafe Model.Bucket Model.Http Model.Server Model.ServerRun Model.F32 Model.Extract Model.ExtractCmd Model.F64 Model.Edit Model.Sync Model.Convert.
+From PM Require Import Model.Varint Model.Directory Model.Iterate Model.TileId Gen.Generated Model.Header Model.FindTile Model.DirBuild Model.Resolver Model.Archive Model.Verify Model.Cluster Model.PathParse Model.PathSafe Model.Bucket Model.Http Model.Server Model.ServerRun Model.F32 Model.Extract Model.ExtractCmd Model.F64 Model.Edit Model.Sync Model.Convert Model.Region.
 From Flocq Require Import IEEE754.Bits.
 Extraction "model.ml"
   N.add N.mul N.sub N.div_eucl N.of_nat N.to_nat N.compare N.eqb Z.add Z.mul Z.div_eucl Z.of_N Z.to_N Z.opp
@@ -18,6 +18,7 @@ Extraction "model.ml"
   route_of file_for_key
   cluster verify content_of
   convert row_id
+  interior_ranges region_relevant region_header
   makesync_blocks sync_entries sync multi_ranges
   edit to_e7 of_e7 to_e7_pinned dec_to_f64 show_json crash_states metadata_edit_ops header_edit_ops fs_get run_limited apply_hjson
   build_roots_leaves optimize_small
